@@ -92,7 +92,7 @@ pub fn gen_logical(rng: &mut Rng, reg: &PortableRegistry) -> Logical {
     // mostly known paths, some unknown
     let kn = rng.subset(&known, 6.min(known.len()));
     pool.extend(kn);
-    let nunk = rng.usize_below(3);
+    let nunk = if rng.chance(1, 6) { 3 + rng.usize_below(3) } else { rng.usize_below(3) };
     let mut unknown_pool: Vec<String> = UNKNOWN_PATHS.iter().map(|s| s.to_string()).collect();
     unknown_pool.extend(crate::c16::near_misses(reg, rng));
     pool.extend(rng.subset(&unknown_pool, nunk));
@@ -110,7 +110,7 @@ pub fn gen_logical(rng: &mut Rng, reg: &PortableRegistry) -> Logical {
         .collect();
     let mut per_path = vec![];
     if !pool.is_empty() {
-        let n_entries = rng.usize_below(6);
+        let n_entries = if rng.chance(1, 6) { 5 + rng.usize_below(6) } else { rng.usize_below(6) };
         let mut seen = BTreeSet::new();
         for _ in 0..n_entries {
             let p = rng.pick(&pool).clone();
